@@ -88,7 +88,8 @@ def handlers : List (String × (List String → String)) := [
   ("eff", Effects.handleEff),
   ("doc", Condense.handleDoc),
   ("pieces", Condense.handlePieces),
-  ("javadoc", Mask.handleJavadoc), ("gopar", Mask.handleGoPar), ("jdmark", Mask.handleJdMark)
+  ("javadoc", Mask.handleJavadoc), ("gopar", Mask.handleGoPar), ("jdmark", Mask.handleJdMark),
+  ("cfgp", Effects.handleCfgp), ("effc", Effects.handleEffc)
 ]
 
 def handle (line : String) : String :=
